@@ -82,9 +82,10 @@ def build_corpus(tier, seed):
         for t in gen.enum_trees(n, [L("a"), L("b")], ["seq", "alt", "fb", "opt", "many"], memo=memo2, max_arity=2):
             if gen.normal(t) and any(x[0] == "fb" for x in gen.walk(t)):
                 mk(cases, [("cmd", t)], [], "precedence")
-    # inside a word: every expression with <= 4 nodes over {x, <R>} after a literal prefix (nested juxtaposition inside | and ||)
+    # inside a word: every expression with <= 5 (6) nodes over {x, <R>} after a literal prefix (nested juxtaposition inside | and ||:
+    # `--k=(x<R> || x)` has 5 nodes and is the smallest tree in which the parser has to dissolve a nested word under `||`)
     memo3 = {}
-    for n in range(2, 5 if tier == "quick" else 6):
+    for n in range(2, 6 if tier == "quick" else 7):
         for t in gen.enum_trees(n, [L("x"), R("R")], ["seq", "alt", "fb", "opt", "many"], insub=True, memo=memo3, max_arity=2):
             w = ("sub", [L("--k="), t])
             if gen.normal(w):
